@@ -9,10 +9,11 @@ budget that always covers every site) is run on a fresh copy of the scenario;
 from __future__ import annotations
 
 import copy
+import sys
 
 from .. import seams, shrink
 from ..compile import World
-from ..ctx import CTX, InjectedFault, RunTooBig
+from ..ctx import CTX, InjectedFault, RunTooBig, py_depth
 from ..history import History, canon, canon_outcome, digest, same
 from ..rng import Streams, chance, pick, weighted
 from ..sim import apply_op, build_sim, locations, preload, readable, stack_state, watch_calls, watch_spirals
@@ -63,6 +64,8 @@ EXPECTED = {
     "bad_len": (ValueError, EnumEncodingError, EnumMemberNotFoundError),
     "bad_dtype": (ValueError,),
     "bad_enum": (EnumEncodingError, EnumMemberNotFoundError, ValueError),
+    # F15: the interpreter's stack is exhausted somewhere below the request
+    "stack_exhausted": (RecursionError,),
     "enospc": (OSError,),
     "enospc_torn": (OSError,),
     "eio": (OSError,),
@@ -108,7 +111,9 @@ def generate(seed: int, tier: str) -> dict:
     n_ops = orr.randint(3, 5)
     ops = [{"do": gen_request(orr, world)} for _ in range(n_ops)]
     fr = st["faults"]
-    mode = weighted(fr, [("enumerate", 7), ("multi", 3)])
+    # stack: the interpreter's stack runs out (RecursionError) at every depth below the
+    # request, one Python frame at a time - what a deep dependency chain meets in production
+    mode = weighted(fr, [("enumerate", 6), ("multi", 3), ("stack", 1.5)])
     if mode == "multi":
         n_f = fr.randint(2, 3)
         for k in sorted(fr.sample(range(n_ops), min(n_f, n_ops))):
@@ -194,6 +199,22 @@ def make_env(scn) -> seams.Env:
 # --------------------------------------------------------------------------- #
 
 
+def with_stack_limit(margin, fn):
+    """Run fn() with at most `margin` more Python frames than there are now (None: no
+    limit, but the depth of this point is recorded for the formulas' depth log).
+    A RecursionError that escapes is the request's outcome."""
+    base = py_depth()
+    old = sys.getrecursionlimit()
+    if margin is not None:
+        sys.setrecursionlimit(base + margin)
+    try:
+        return fn(base)
+    except RecursionError as e:
+        return ("exc", e)
+    finally:
+        sys.setrecursionlimit(old)
+
+
 def has_formula(world: World, var: str, period_str: str) -> bool:
     v = world.tbs.get_variable(var)
     try:
@@ -216,7 +237,10 @@ def execute(scn, world: World, plans: dict, res: Result, *, auto_heal: bool, rec
         spirals = watch_spirals(sim)
         tspirals = watch_spirals(twin)
         traced = bool(scn["knobs"].get("trace"))
-        calls = watch_calls(sim) if traced else None
+        # (stack exhaustion can strike inside the harness's own call logger, between its
+        # note of a call and the engine's: its tree is not an oracle in those scenarios)
+        stack_mode = scn["mode"] == "stack" or scn.get("stack_mode")
+        calls = watch_calls(sim) if traced and not stack_mode else None
         ref = None
         replaced: dict = {}
         queue = [(k, op, plans.get(k)) for k, op in enumerate(scn["ops"])]
@@ -242,13 +266,23 @@ def execute(scn, world: World, plans: dict, res: Result, *, auto_heal: bool, rec
                 res.count("probe:heal_by_replacing_the_rule")
                 H.add("R", "replace_variable", [name])
             before = readable(sim, env)
-            roots_before = len(calls) if traced else 0
+            roots_before = len(calls) if calls is not None else 0
             if env.fs is not None:
                 env.fs.n["save"] = env.fs.n["load"] = 0
                 env.fs.fired = []
                 env.fs.faults = (plan or {}).get("io", {})
-            out = apply_op(sim, world, do, (plan or {}).get("site"))
+            if stack_mode:
+                def _do(base, do=do, plan=plan):
+                    CTX.pending_base = base
+                    return apply_op(sim, world, do, (plan or {}).get("site"))
+
+                out = with_stack_limit((plan or {}).get("stack"), _do)
+                depth_needed = max(0, CTX.max_depth - CTX.base_depth) if CTX.base_depth is not None else 0
+            else:
+                out = apply_op(sim, world, do, (plan or {}).get("site"))
             fired = list(CTX.fired)
+            if stack_mode and out[0] == "exc" and isinstance(out[1], RecursionError) and (plan or {}).get("stack"):
+                fired.append(("stack", "stack_exhausted"))
             caught = list(CTX.caught)
             if env.fs is not None:
                 fired += [(f"{f[0]}{f[1]}", f[2]) for f in env.fs.fired]
@@ -262,6 +296,8 @@ def execute(scn, world: World, plans: dict, res: Result, *, auto_heal: bool, rec
             completed = {_key(world, vp) for vp in CTX.completed()}
             if record_sites is not None:
                 record_sites[k] = {"kinds": kinds, "save": n_io["save"], "load": n_io["load"]}
+                if stack_mode:
+                    record_sites[k]["depth"] = depth_needed
             after = readable(sim, env)
             st = stack_state(sim)
             failed = out[0] == "exc"
@@ -336,7 +372,7 @@ def execute(scn, world: World, plans: dict, res: Result, *, auto_heal: bool, rec
             # C18.trace ---------------------------------------------------------
             # with tracing on, the trace of this request - failed, caught or not -
             # is one new tree, node for node the harness's own call tree
-            if traced:
+            if calls is not None:
                 res.count("clause:C18.trace")
                 trees = sim.tracer.trees
                 problems = []
@@ -384,6 +420,8 @@ def execute(scn, world: World, plans: dict, res: Result, *, auto_heal: bool, rec
                 cands = _guard_inputs(world, frames_now, before, after)
                 turn = fired[0][0] if isinstance(fired[0][0], int) else len(kinds)
                 culprit = _culprit(world, frames_now) if isinstance(fired[0][0], int) else None
+                if fired[0][0] == "stack":
+                    cands = []  # the cause is the stack limit; lifting it is the heal
                 if culprit and any(k[0] == culprit for k in after):
                     # something computed under the old rule is kept (by an earlier request
                     # - possibly one that failed on its own, which the twin never made)
@@ -537,10 +575,49 @@ def placements(scn, world: World, sites: dict):
     return chosen, False, len(per_site)
 
 
+STACK_FLOOR = 6  # fewer frames than this do not even reach Simulation.calculate
+STACK_SLACK = 28  # frames the engine may need below the deepest formula entry
+
+
+def stack_placements(scn, sites: dict):
+    """Every stack limit from STACK_FLOOR frames below the request to past what its
+    deepest formula needs, one frame at a time (every alignment of the limit with the
+    engine's own frames), for up to three requests."""
+    per_req = []
+    for k in sorted(sites):
+        if len(per_req) >= 3:
+            break
+        d = sites[k].get("depth", 0)
+        if not sites[k]["kinds"]:
+            continue
+        per_req.append([(k, "stack", m, {"kind": "stack_exhausted"}) for m in range(STACK_FLOOR, d + STACK_SLACK)])
+    all_p = [p for g in per_req for p in g]
+    budget = scn.get("budget", 120) * 2  # (these executions are cheap: most fail early)
+    if len(all_p) <= budget:
+        return all_p, True, len(all_p)
+    import random
+
+    rng = random.Random(scn.get("seed", 0))
+    chosen = []
+    share = max(14, budget // max(1, len(per_req)))
+    for g in per_req:
+        if len(g) <= share:
+            chosen += g
+        else:
+            # two contiguous windows: consecutive limits cover every alignment
+            half = share // 2
+            for _ in range(2):
+                a = rng.randrange(0, len(g) - half + 1)
+                chosen += [p for p in g[a : a + half] if p not in chosen]
+    return chosen, False, len(all_p)
+
+
 def plan_of(placement):
     k, where, at, fault = placement
     if where == "site":
         return {k: {"site": {at: fault}}}
+    if where == "stack":
+        return {k: {"stack": at}}
     io, n = at
     return {k: {"io": {io: {n: fault}}}}
 
@@ -570,6 +647,11 @@ def _run(scn, world, res):
                 w, at, fault = op["placement"]
                 at = tuple(at) if isinstance(at, list) else at
                 plans.update(plan_of((k, w, at, fault)))
+        if scn.get("stack_mode"):
+            # Where the stack runs out depends on which code paths are warm (a memo that
+            # misses goes deeper than one that hits): as in the exploring run, a fault-free
+            # pass of the scenario comes first.
+            execute(scn, world, {}, Result(), auto_heal=False)
         H = execute(scn, world, plans, res, auto_heal=True)
         res.events = H.events
         res.nontrivial = any(k.startswith("fault:") for k in res.stats)
@@ -588,8 +670,13 @@ def _run(scn, world, res):
         res.count(key, n)
     res.mark("interleavings", digest([op["do"][0] for op in scn["ops"]]))
 
-    if mode == "enumerate":
+    if mode == "stack":
+        chosen, exhaustive, n_sites = stack_placements(scn, sites)
+        mode = "enumerate"
+        res.count("scenarios_stack_exhaustion")
+    elif mode == "enumerate":
         chosen, exhaustive, n_sites = placements(scn, world, sites)
+    if mode == "enumerate":
         res.count("sites", n_sites)
         res.count("placements", len(chosen))
         if exhaustive:
@@ -647,9 +734,11 @@ def _run(scn, world, res):
 def to_replay(scn, violation) -> dict:
     """Turn a failing enumerate-scenario into a self-contained single-placement one."""
     pl = violation.get("placement")
-    if scn["mode"] != "enumerate" or not pl:
+    if scn["mode"] not in ("enumerate", "stack") or not pl:
         return copy.deepcopy(scn)
     out = copy.deepcopy(scn)
+    if scn["mode"] == "stack":
+        out["stack_mode"] = True
     out["mode"] = "single"
     k, where, at, fault = pl
     out["ops"][k]["placement"] = [where, at, fault]
